@@ -5,6 +5,10 @@
 (*     Set(i, v)     through accessor i          heap' = Put(heap, loc_i, v)     *)
 (*     Mutate(j, v)  the caller updates the map entry / array element of         *)
 (*                   result j directly           heap' = Put(heap, loc_j, v)     *)
+(*     Other(o)      an UNRELATED retrieval in accessor mode (another path,      *)
+(*                   another document): a stuttering step of this machine --     *)
+(*                   heap and accessors are what they were -- but a real call    *)
+(*                   of the library, whose accessors the caller also keeps       *)
 (* and after every operation EVERY accessor's Get() must read At(heap, loc)      *)
 (* (Get is live; two accessors of one location see each other's writes; an       *)
 (* accessor of a container sees writes to its leaves).  Writes go to leaf        *)
@@ -30,8 +34,13 @@ vars == <<d, p, heap, ops>>
 Res == Response(Paths[p], Docs[d])
 Leaf(i) == ~IsCont(Res.vals[i].v)
 Init == d \in 1..Len(Docs) /\ p \in 1..Len(Paths) /\ heap = Docs[d] /\ ops = <<>>
+Others == 1..3
+NOthers == Cardinality({k \in 1..Len(ops) : ops[k].k = "other"})
+Gets(h) == [j \in 1..Len(Res.vals) |-> At(h, Res.vals[j].loc)]
 Next == /\ Res.ok /\ Len(ops) < MaxOps /\ UNCHANGED <<d, p>>
-        /\ \E i \in 1..Len(Res.vals), kind \in {"set", "mutate"} :
+        /\ \/ /\ NOthers < 2 /\ UNCHANGED heap
+              /\ \E o \in Others : ops' = Append(ops, [k |-> "other", i |-> o, v |-> Null, gets |-> Gets(heap), heap |-> heap])
+           \/ \E i \in 1..Len(Res.vals), kind \in {"set", "mutate"} :
              /\ Res.vals[i].set /\ Leaf(i)
              /\ LET v == Sentinels[Len(ops) + 1] IN
                 /\ heap' = Put(heap, Res.vals[i].loc, v)
@@ -43,7 +52,7 @@ Spec == Init /\ [][Next]_vars
 \* SetExact: an operation changes the one location it addresses and nothing else
 LawSetExact == \A k \in 1..Len(ops) :
                  LET before == IF k = 1 THEN Docs[d] ELSE ops[k - 1].heap IN
-                 ops[k].heap = Put(before, Res.vals[ops[k].i].loc, ops[k].v)
+                 ops[k].heap = IF ops[k].k = "other" THEN before ELSE Put(before, Res.vals[ops[k].i].loc, ops[k].v)
 \* GetLive: what every accessor must read is the heap at its location
 LawGetLive == \A k \in 1..Len(ops) : \A j \in 1..Len(Res.vals) : ops[k].gets[j] = At(ops[k].heap, Res.vals[j].loc)
 Emit == (Res.ok /\ ops # <<>>) => PrintT(ToJson([fam |-> "acchist", doc |-> Docs[d], text |-> PathText(Paths[p], Canon), path |-> Paths[p],
